@@ -171,6 +171,12 @@ def check_history(case, ctx: Ctx):
                 ws_ = [(i % 3) + 1 for i in range(len(cells))]
                 ctx.call(what, h.fill_n, arr, np.array(ws_, dtype=np.int64))
                 ws = [Fraction(x) for x in ws_]
+            elif wk == "float16" and before_dtype != np.float16:
+                # weights in a narrow float type whose squares leave that type (the histogram's own type has the room)
+                ws_ = [[300.0, 0.5, 1024.0][i % 3] for i in range(len(cells))]
+                ctx.call(what, h.fill_n, arr, np.array(ws_, dtype=np.float16))
+                ws = [Fx(x) for x in ws_]
+                ctx.label("fill_n_float16_weights")
             else:
                 ws_ = [0.5 + 0.25 * (i % 3) for i in range(len(cells))]
                 ctx.call(what, h.fill_n, arr, np.array(ws_, dtype=np.float64))
@@ -379,7 +385,7 @@ def one_op(draw):
         return [name, draw(ts), draw(st.sampled_from([None, None, 1, 2, 0.5, 1.5, 2.0, 0.25, 200, 100])),
                 draw(st.sampled_from([None, None, "np_float32", "np_float16", "np_float64", "np_longdouble", "np_int32", "np_int16", "np_int8"]))]
     if name == "fill_n":
-        return [name, draw(st.lists(ts, max_size=4)), draw(st.sampled_from(["none", "int", "float"]))]
+        return [name, draw(st.lists(ts, max_size=4)), draw(st.sampled_from(["none", "int", "float", "float16"]))]
     if name in ("add", "iadd", "sub", "isub"):
         return [name, draw(st.sampled_from(DTYPES[:6]))]
     if name in ("mul", "imul", "div", "idiv"):
